@@ -56,7 +56,9 @@ def impl_dec_req(bs):
         return {'err': errkind(e)}
     if o is None:
         return {'err': 'modbusexc'}
-    return pdus.req_to_json(o)
+    j = pdus.req_to_json(o)
+    pdus.edit_in_place(o)         # whatever the caller does with the object afterwards must not reach into later decodes
+    return j
 
 
 def impl_dec_resp(bs):
@@ -66,7 +68,9 @@ def impl_dec_resp(bs):
         return {'raised': errkind(e)}
     if o is None:
         return None
-    return pdus.resp_to_json(o)
+    j = pdus.resp_to_json(o)
+    pdus.edit_in_place(o)
+    return j
 
 
 def model_enc(ans):
